@@ -15,6 +15,21 @@ nothing with the library but the canonical spelling they start from, which is to
 splitter (separator outside double quotes, first `=`).  A variation the RFC does not declare insignificant is
 not generated.
 
+REQUIRED since the repair `quote_aware` (`NameValuePairList._parse` splits with `quote_aware=True`: a separator inside an
+RFC 7230 3.2.6 quoted-string, backslash quoted-pairs included, does not split the list).  These were known findings
+and are now violations when they reappear:
+  * `unknown-directive:<Class>:quoted-separator` for HttpHeaderFieldValue{CacheControlResponse, ExpectCT, ExpectStaple,
+    PublicKeyPinning, STS}: an unknown directive whose quoted-string value contains the list separator (and the name of a
+    known flag, escaped quotes `\\"`, escaped backslashes `\\\\`) is ignored as ONE directive, at every position, under
+    several unknown names, for the ";" and the "," lists;
+  * `canonical:<Class>:separator-in-quoted-string` for HttpHeaderFieldValue{ExpectCT, ExpectStaple, PublicKeyPinning}: a
+    report-uri containing "," / ";" / both survives compose -> parse -> compose.
+The probes are generated for these classes unconditionally (`gen_quoted_separator`); a class that is missing, cannot be
+constructed / composed, or whose canonical spelling cannot be tokenised is reported under the same key, never skipped.
+The DNS TXT policy records (DMARC RFC 7489 6.4, MTA-STS RFC 8461 3.1, TLSRPT RFC 8460 3) have no quoted-string in
+their grammars (`Rules.quoted_sep` is False): no such probes; their splitting is tied to the model through the TX ops,
+which are fed with quoted, escaped and unbalanced material for every class.
+
 Finding keys name the variation kind, the class and the place:  `case:HttpHeaderFieldValueContentType:charset`,
 `ows:HttpHeaderFieldValueSTS:after-semicolon`, `empty-element:…`, `order:…`, `quoting:…`, `unknown-directive:…`,
 `canonical:<Class>:roundtrip`, `compose:<Class>:<kind>`, `combined:<Class>:<kinds>`, `block:HttpHeaderFields:<what>`,
@@ -45,7 +60,13 @@ RULE = ('header/record layer: every FieldValueMultiple subclass, FieldsJson subc
         'after every separator and around "=" where the RFC has OWS/BWS/LWS/WSP, empty elements (doubled, leading, trailing '
         'separator) where the list rule admits them, reversal / rotation / shuffles of the order-free elements, token vs '
         'quoted-string, unknown directives (flag, pair, quoted, quoted string containing the separator and a known flag '
-        'name), and seeded combinations of the variations that passed singly; header lines: case of the field name, OWS '
+        'name), and seeded combinations of the variations that passed singly; REQUIRED since the repair quote_aware '
+        '(reappearance of unknown-directive:<Class>:quoted-separator or canonical:<Class>:separator-in-quoted-string is a '
+        'violation): for STS, Expect-CT, Expect-Staple, HPKP and Cache-Control (response) a minimal and a full value x 4 '
+        'unknown directive names x 9 quoted-string values containing the list separator, the other separator, a known flag '
+        'name, a known pair, escaped quotes and escaped backslashes x every position, plus two such directives at once; for '
+        'Expect-CT, Expect-Staple and HPKP report-uri values containing "," / ";" / both, round trip and every respelling; '
+        'TX ops also on quoted / escaped / unbalanced off-grammar lists of every class; header lines: case of the field name, OWS '
         'after the colon and before CRLF; blocks of 1..6 lines (understood / unknown names, valid / invalid values, canonical '
         'and variant spelling) compared field by field with an RFC 7230 reference splitter.  Each variant is one '
         'evaluation; non-trivial = the variant differs from the canonical spelling; distinct by (class, variant bytes). '
@@ -283,6 +304,8 @@ def check_case(case):
         return check_block(case)
     if case.get('layer') == 'seed':
         return check_seed(case)
+    if case.get('layer') == 'broken-probe':
+        return [(case['key'], case['message'])]     # a REQUIRED probe that could not be built: reported, never skipped
     cls = resolve(case['cls'])
     layer = case.get('layer', 'value')
     canonical, variant = unhx(case['canonical']), unhx(case['variant'])
@@ -560,7 +583,42 @@ def list_variants(cls_name, rules, elems, rng, flag_names=()):
                 out.append((Variant('unknown-directive', label, render(sp, sep), '{!r} inserted at position {}'.format(text, pos),
                                     cmp_mode=cmp_mode, recompose=rules.unknown == 'ignored'),
                             ('insert', pos, text) if label != 'quoted-separator' else None))
+        if rules.quoted_sep:
+            # REQUIRED since the repair `quote_aware`: at EVERY position two more unknown directives whose quoted-string
+            # value contains the separator, escaped quotes, escaped backslashes (the full cross product is generated by
+            # gen_quoted_separator on fixed values)
+            texts = quoted_separator_values(sep, inner)
+            for pos in range(rules.fixed, n + 1):
+                for _ in range(2):
+                    text = rng.choice(UNKNOWN_NAMES) + b'=' + rng.choice(texts)
+                    sp = base[:pos] + [text] + base[pos:]
+                    out.append((Variant('unknown-directive', 'quoted-separator', render(sp, sep),
+                                        '{!r} inserted at position {}'.format(text, pos),
+                                        cmp_mode=cmp_mode, recompose=rules.unknown == 'ignored'), None))
     return out
+
+
+UNKNOWN_NAMES = [b'x-c18-unknown', b'x-c18-other', b'X-C18-UPPER', b'zz']
+
+
+def quoted_separator_values(sep, inner):
+    """quoted-string values (RFC 7230 3.2.6: DQUOTE *( qdtext / quoted-pair ) DQUOTE) that contain the list separator;
+    `inner` is the name of a known flag directive of the class.  All of them are WELL-FORMED (a DQUOTE inside only as the
+    second byte of a quoted-pair, no lone backslash at the end): a list with a stray DQUOTE is rejected as a whole by the
+    repaired `NameValuePairList._parse`, which is not a spelling variation and not probed here (the TX ops compare that
+    rule with the model on stray-quote inputs)"""
+    other = b',' if sep == b';' else b';'
+    return [
+        b'"a' + sep + b' ' + inner + sep + b' c"',                        # (the probe of the former known finding)
+        b'"a\\"' + sep + b' ' + inner + sep + b' \\\\"',                    # "a\"; flag; \\"   escaped quote, escaped backslash at the end
+        b'"' + sep + b'"',                                                # only the separator
+        b'"' + sep + sep + b' "',                                         # an "empty element" inside the string
+        b'"\\\\' + sep + b'\\"' + sep + b'"',                               # "\\;\";"     escaped backslash, then escaped quote
+        b'"a' + other + b' b' + sep + b'c' + other + b'"',                # both separators
+        b'"' + inner + b'=1' + sep + b' max-age=0"',                      # looks like known directives
+        b'"\\' + sep + b' ' + inner + b'"',                               # "\; flag"     a quoted-pair of the separator itself
+        b'"\'a\'' + sep + b' \\"' + inner + b'\\""',                        # "'a'; \"flag\""
+    ]
 
 
 def combine(rules, elems, mutations, rng):
@@ -689,7 +747,7 @@ def seeds_multiple(cls, rng, count):
     for which in combos:
         for attempt in range(4):
             kwargs = {n: (pools[n][0] if not out and attempt == 0 else rng.choice(pools[n])) for n in required}
-            for n in which:
+            for n in sorted(which):       # (a set: sorted, so that the rng is consumed in one order)
                 kwargs[n] = rng.choice(pools[n])
             try:
                 obj = cls(**kwargs)
@@ -791,16 +849,112 @@ def gen_multiple(rng, tier, notes):
                 continue                # the attribute list of Set-Cookie: its spellings are exercised through HttpHeaderFieldValueSetCookie
             more, why = cases_for_list(cls, canonical, rules, rng, combos, flags)
             cases.extend(more)
-    # a separator inside a quoted-string value of a KNOWN directive (the URI of report-uri may contain "," and ";")
+    return cases
+
+
+# REQUIRED since the repair `quote_aware` (formerly known findings): the classes whose RFC grammar has quoted-string
+# directive values (`Rules.quoted_sep`), each with a minimal and a full value,
+REQUIRED_QUOTED_SEPARATOR = [
+    ('HttpHeaderFieldValueSTS', [{'max_age': 5}, {'max_age': 31536000, 'include_subdomains': True, 'preload': True}]),
+    ('HttpHeaderFieldValueExpectCT', [{'max_age': 5}, {'max_age': 86400, 'enforce': True, 'report_uri': 'https://a.example/r'}]),
+    ('HttpHeaderFieldValueExpectStaple', [{'max_age': 5}, {'max_age': 86400, 'include_subdomains': True, 'preload': True,
+                                                          'report_uri': 'https://a.example/r'}]),
+    ('HttpHeaderFieldValuePublicKeyPinning', [{'pin_sha256': B64[0], 'max_age': 5},
+                                              {'pin_sha256': B64[1], 'max_age': 5184000, 'include_subdomains': True,
+                                               'report_uri': 'https://a.example/r'}]),
+    ('HttpHeaderFieldValueCacheControlResponse', [{'max_age': 5}, {'max_age': 300, 's_maxage': 600, 'must_revalidate': True,
+                                                                   'no_store': True, 'public': True}]),
+]
+# and the classes with a quoted-string value of a KNOWN directive that may contain the separators (the URI of report-uri)
+REQUIRED_SEPARATOR_IN_QUOTED_STRING = [
+    ('HttpHeaderFieldValueExpectCT', {'max_age': 5}, {'max_age': 5, 'enforce': True}),
+    ('HttpHeaderFieldValueExpectStaple', {'max_age': 5}, {'max_age': 5, 'include_subdomains': True, 'preload': True}),
+    ('HttpHeaderFieldValuePublicKeyPinning', {'pin_sha256': B64[0], 'max_age': 5}, {'pin_sha256': B64[0], 'max_age': 5, 'include_subdomains': True}),
+]
+# (the first URI per class is the seed of the former known finding: "," for the "," list, ";" for the ";" lists)
+REPORT_URIS = ['https://a.example/r?a=1,2', 'https://a.example/r;a=1', 'https://a.example/r;a=1,2;b=3,4', 'https://a.example/,;,/;']
+
+
+def broken_probe(cls_name, key, message):
+    """a REQUIRED probe that could not be generated: evaluated like any case, it reports `key`"""
+    return {'kind': 'c18', 'layer': 'broken-probe', 'cls': 'cryptoparser.httpx.header:' + cls_name, 'key_cls': cls_name, 'key': key,
+            'vkind': 'required-probe', 'detail': 'not-generated', 'canonical': '-', 'variant': hx(key.encode('ascii')), 'required': 1,
+            'message': '{}: the REQUIRED probe {} (a separator inside a quoted-string does not split; repair `quote_aware`) could '
+                       'not be generated: {}'.format(cls_name, key, message)}
+
+
+def gen_quoted_separator(rng, tier):
+    """The former known findings `unknown-directive:<Class>:quoted-separator` and
+    `canonical:<Class>:separator-in-quoted-string`, REQUIRED behaviour since the repair `quote_aware`.  Nothing here is
+    skipped silently: whatever prevents a probe from being generated is a case that reports the key of the probe."""
     _, H, _, _ = _mods()
-    for cls, kwargs in ((H.HttpHeaderFieldValueExpectCT, {'max_age': 5, 'report_uri': 'https://a.example/r?a=1,2'}),
-                        (H.HttpHeaderFieldValueExpectStaple, {'max_age': 5, 'report_uri': 'https://a.example/r;a=1'}),
-                        (H.HttpHeaderFieldValuePublicKeyPinning, {'pin_sha256': B64[0], 'max_age': 5, 'report_uri': 'https://a.example/r;a=1'})):
-        try:
-            obj = cls(**kwargs)
-            cases.append(seed_case(cls, obj, bytes(obj.compose()), detail='separator-in-quoted-string'))
-        except Exception:  # pylint: disable=broad-except
-            pass
+    cases = []
+    for cls_name, seeds in REQUIRED_QUOTED_SEPARATOR:
+        key = 'unknown-directive:{}:quoted-separator'.format(cls_name)
+        rules = RULES[cls_name]
+        cls = getattr(H, cls_name, None)
+        if cls is None:
+            cases.append(broken_probe(cls_name, key, 'no such class in cryptoparser.httpx.header'))
+            continue
+        for kwargs in seeds:
+            try:
+                flags = flag_names_of(cls)
+                obj = cls(**kwargs)
+                canonical = bytes(obj.compose())
+                elems = tokenise(canonical, rules.sep)
+                if not elems:
+                    raise ValueError('the canonical spelling {!r} is not a {!r}-separated name[=value] list'.format(canonical, rules.sep))
+            except Exception as e:  # pylint: disable=broad-except
+                cases.append(broken_probe(cls_name, key, '{}(**{}): {}: {}'.format(cls_name, kwargs, type(e).__name__, e)))
+                continue
+            cases.append(dict(seed_case(cls, obj, canonical), required=1))
+            base = [spell(e) for e in elems]
+            inner = flags[0] if flags else b'b'
+            texts = quoted_separator_values(rules.sep, inner)
+
+            def probe(spelled, note, gaps=None, lead=b'', trail=b''):
+                v = Variant('unknown-directive', 'quoted-separator', render(spelled, rules.sep, gaps, lead, trail), note)
+                cases.append(dict(variant_case(cls, canonical, v, rules.cite), required=1))
+            for name in UNKNOWN_NAMES:
+                for text in texts:
+                    for pos in range(rules.fixed, len(base) + 1):
+                        directive = name + b'=' + text
+                        probe(base[:pos] + [directive] + base[pos:], '{!r} inserted at position {}'.format(directive, pos))
+            # two of them at once, whitespace in front of the separators (OWS of the list rule), a trailing separator where
+            # the list rule has empty elements
+            for _ in range(6 if tier == 'quick' else 40):
+                first, second = (rng.choice(UNKNOWN_NAMES[:2]) + b'=' + rng.choice(texts), rng.choice(UNKNOWN_NAMES[2:]) + b'=' + rng.choice(texts))
+                pos = rng.randrange(rules.fixed, len(base) + 1)
+                spelled = base[:pos] + [first] + base[pos:] + [second]
+                gaps = [(rng.choice([b'', b' ', b'\t']), rng.choice([b'', b' ', b'  ', b'\t']) if rules.ows_sep else b' ')
+                        for _ in range(len(spelled) - 1)]
+                trail = rules.sep if rules.empties == 'all' and rng.random() < 0.5 else b''
+                probe(spelled, '{!r} at position {} and {!r} at the end'.format(first, pos, second), gaps if rules.ows_sep else None, b'', trail)
+    for cls_name, minimal, full in REQUIRED_SEPARATOR_IN_QUOTED_STRING:
+        key = 'canonical:{}:separator-in-quoted-string'.format(cls_name)
+        rules = RULES[cls_name]
+        cls = getattr(H, cls_name, None)
+        if cls is None:
+            cases.append(broken_probe(cls_name, key, 'no such class in cryptoparser.httpx.header'))
+            continue
+        for kwargs in (minimal, full):
+            for uri in REPORT_URIS:
+                try:
+                    obj = cls(report_uri=uri, **kwargs)
+                    canonical = bytes(obj.compose())
+                    if uri.encode('ascii') not in canonical:
+                        raise ValueError('compose() gives {!r}, which does not contain the report-uri'.format(canonical))
+                    flags = flag_names_of(cls)
+                except Exception as e:  # pylint: disable=broad-except
+                    cases.append(broken_probe(cls_name, key, '{}(report_uri={!r}, **{}): {}: {}'.format(
+                        cls_name, uri, kwargs, type(e).__name__, e)))
+                    continue
+                cases.append(dict(seed_case(cls, obj, canonical, detail='separator-in-quoted-string'), required=1))
+                # every respelling of it (the quoted-string with the separators in it also in front of other directives)
+                more, why = cases_for_list(cls, canonical, rules, rng, 3 if tier == 'quick' else 12, flags)
+                if why is not None:
+                    cases.append(broken_probe(cls_name, key, 'the canonical spelling {!r} is {}'.format(canonical, why)))
+                cases.extend(dict(c, required=1) for c in more)
     return cases
 
 
@@ -913,7 +1067,7 @@ def seeds_multiple_json(cls, rng, count):
     combos = [set(), set(optional)] + [{n} for n in optional] + [{n for n in optional if rng.random() < 0.5} for _ in range(count)]
     for which in combos:
         kwargs = {n: rng.choice(pools[n]) for n in required}
-        kwargs.update({n: rng.choice(pools[n]) for n in which})
+        kwargs.update({n: rng.choice(pools[n]) for n in sorted(which)})
         try:
             obj = cls(**kwargs)
             data = bytes(obj.compose())
@@ -1332,7 +1486,8 @@ def gen_tx(cases, table, rng, tier):
     """TX ops for the spellings the layer generated (value layer, FieldValueMultiple classes only)"""
     names = {t['cls'] for t in table}
     out, seen = [], set()
-    for c in cases:
+    # (the REQUIRED quoted-separator probes first: they are never sampled away)
+    for c in [c for c in cases if c.get('required')] + [c for c in cases if not c.get('required')]:
         if c.get('layer') not in ('value', 'seed') or c.get('kind') != 'c18':
             continue
         name = c['cls'].split(':')[1]
@@ -1341,13 +1496,23 @@ def gen_tx(cases, table, rng, tier):
         for key in ('variant', 'canonical'):
             if key in c and (name, c[key]) not in seen:
                 seen.add((name, c[key]))
-                out.append({'kind': 'tx', 'cls': name, 'data': c[key]})
+                out.append(dict({'kind': 'tx', 'cls': name, 'data': c[key]}, **({'required': 1} if c.get('required') else {})))
     limit = 4000 if tier == 'quick' else 60000
-    if len(out) > limit:
-        out = rng.sample(out, limit)
+    kept = [c for c in out if c.get('required')]
+    rest = [c for c in out if not c.get('required')]
+    out = kept + (rng.sample(rest, limit) if len(rest) > limit else rest)
     # off-grammar material for the model of NameValuePair / the ordered dictionary / the matching loop: duplicate names in
     # several spellings, runs of "=", unbalanced quotes, empty names, the canonical name next to a respelled one
     values = [b'1', b'0', b'"q"', b'"', b'"x', b'x"', b'a=b', b'', b'""', b'"a" ', b'=', b'\xff']
+    # the quote state machine of the splitter (`quote_aware`, model `sepSearchQ`): quoted-strings containing the list
+    # separator (written for ';', replaced by the separator of the class; ',' stays as the other separator), escaped quotes,
+    # escaped backslashes, unbalanced quotes, a backslash outside quotes, a backslash at the end.  About a third of the quoted
+    # lists are well-formed with a separator inside a quoted-string, a fifth have a stray DQUOTE (a DQUOTE in a name, in an
+    # unquoted value, unescaped inside a quoted value, a lone backslash at its end): InvalidValue for the whole list, in the
+    # repaired `NameValuePairList._parse` and in the model alike
+    quoted = [b'"a; b"', b'"a, b"', b'"a\\"; b"', b'"a\\\\"; b', b'"a; b', b'a"; b', b'\\"; a', b'"a\\\\\\"; b"', b'"; "', b'";"', b'";',
+              b'"a; b"c', b'"a; b" c="d; e"', b'"a; b";c', b'"\\;"', b'"\\', b'a\\', b'a\\; b', b'"a;\\', b'"";', b'"""; a',
+              b'"a "b; c" d"', b'"a; b"; "c', b'"\xff; b"', b'\'a; b\'', b'"a; b",', b'"a\r\n; b"']
     eqs = [b'', b'=', b'=', b'==', b' = ', b'= ', b' =']
     for t in table:
         sep = t['sep'].encode('ascii')
@@ -1356,14 +1521,24 @@ def gen_tx(cases, table, rng, tier):
             n = c['name'].encode('ascii')
             names += [n, n.upper(), n.lower(), n.swapcase(), n + b'x', n[:-1]]
         names += [b'', b'x-unknown', b'X-Unknown', b' ', b'"']
-        for _ in range(150 if tier == 'quick' else 3000):
+        for i in range(300 if tier == 'quick' else 6000):
             parts = []
             for _ in range(rng.randrange(0, 7)):
                 eq = rng.choice(eqs)
-                part = rng.choice(names) + eq + (rng.choice(values) if eq else b'')
+                if i % 2 and rng.random() < 0.45:           # every second list has quoted material in it
+                    text = rng.choice(quoted).replace(b';', sep)
+                    part = text if rng.random() < 0.15 else rng.choice(names) + (eq or b'=') + text
+                else:
+                    part = rng.choice(names) + eq + (rng.choice(values) if eq else b'')
                 parts.append(rng.choice([b'', b' ', b'\t', b'  ']) + part + rng.choice([b'', b' ', b'\t']))
             data = rng.choice([sep, sep + b' ', sep + sep, b' ' + sep]).join(parts) + rng.choice([b'', sep, b' '])
             out.append({'kind': 'tx', 'cls': t['cls'], 'data': hx(data)})
+        # each quoted text on its own: as the value of the first component, of an unknown name, bare; in front of a known element
+        first = t['components'][0]['name'].encode('ascii') if t['components'] else b'a'
+        for text in quoted:
+            text = text.replace(b';', sep)
+            for data in (first + b'=' + text, b'x-unknown=' + text + sep + b' ' + first + b'=1', text, first + b'=1' + sep + text + sep + first.upper()):
+                out.append({'kind': 'tx', 'cls': t['cls'], 'data': hx(data)})
     return out
 
 
@@ -1374,6 +1549,7 @@ def gen_tx(cases, table, rng, tier):
 def gen_cases(rng, tier, notes):
     cases = []
     cases += gen_multiple(rng, tier, notes)
+    cases += gen_quoted_separator(rng, tier)
     cases += gen_set_cookie(rng, tier)
     cases += gen_single(rng, tier)
     cases += gen_nel(rng, tier)
@@ -1399,6 +1575,8 @@ def run_header_layer(run, driver_ok, tier):
         cls_name = case['cls'].split(':')[1] if 'cls' in case else 'HttpHeaderFields'
         run.count('header_layer', layer + ':' + case.get('vkind', 'canonical'))
         run.count('classes', cls_name)
+        if case.get('required'):
+            run.count('required_quoted_separator', '{}:{}'.format(cls_name, 'canonical' if layer == 'seed' else case.get('vkind')))
         if layer == 'block':
             run.note_nontrivial(('block', tuple(case['lines'])))
         elif layer != 'seed':
@@ -1408,6 +1586,12 @@ def run_header_layer(run, driver_ok, tier):
                 run.sample({k: case[k] for k in ('cls', 'vkind', 'detail', 'canonical', 'variant')}, limit=24)
         for key, message in check_case(case):
             run.finding(key, message, case)
+    run.notes.append('REQUIRED since the repair quote_aware (a reappearance is a violation, not a known finding): '
+                     'unknown-directive:<Class>:quoted-separator for {}; canonical:<Class>:separator-in-quoted-string for {}; {} probes, '
+                     'none skipped (a probe that cannot be generated reports its key); the DNS TXT policy records have no '
+                     'quoted-string in their grammars (Rules.quoted_sep False): TX correspondence only'.format(
+                         ', '.join(n for n, _ in REQUIRED_QUOTED_SEPARATOR), ', '.join(n for n, _, _ in REQUIRED_SEPARATOR_IN_QUOTED_STRING),
+                         sum(1 for c in cases if c.get('required'))))
     table = check_table(run)
     if table is not None and driver_ok and not _driver_has_tx():
         run.notes.append('the driver has no TX op (fieldsOp not linked into Driver.lean): the field model is not compared with the code')
